@@ -2,7 +2,6 @@
 
 use std::{
     any::Any,
-    borrow::Cow,
     collections::HashMap,
     env,
     fmt::Display,
@@ -1064,10 +1063,23 @@ impl Formatter<'_> {
             Word::Label(Some(label)) => self.push(&word.span, &format!("${label}")),
             Word::Label(None) => self.push(&word.span, "$_"),
             Word::Char(_) | Word::String(_) | Word::FormatString(_) => {
-                let mut s = Cow::Borrowed(&self.inputs.get(&word.span.src)[word.span.byte_range()]);
-                for (esc, c) in [("\\R", "ℝ"), ("\\Z", "ℤ"), ("\\N", "ℕ"), ("\\B", "𝔹")] {
-                    if s.contains(esc) {
-                        s = s.replace(esc, c).into();
+                let src = &self.inputs.get(&word.span.src)[word.span.byte_range()];
+                let mut s = String::with_capacity(src.len());
+                let mut chars = src.chars();
+                while let Some(c) = chars.next() {
+                    if c != '\\' {
+                        s.push(c);
+                        continue;
+                    }
+                    // The character after a backslash belongs to it,
+                    // so an escaped backslash does not start another escape
+                    match chars.next() {
+                        Some('R') => s.push('ℝ'),
+                        Some('Z') => s.push('ℤ'),
+                        Some('N') => s.push('ℕ'),
+                        Some('B') => s.push('𝔹'),
+                        Some(esc) => s.extend(['\\', esc]),
+                        None => s.push('\\'),
                     }
                 }
                 self.output.push_str(&s)
